@@ -46,9 +46,10 @@ class Layout:
 
 
 def generate(rng, hostile=False, regimes=("lf", "crlf", "cr", "mixed"), max_files=5, max_pats=4, shared=0.5, glob=0.15, partial=0.3, legacy=False,
-             stale=0.0, only_partial=0.0, repeat=0.15, touch=0.3):
+             stale=0.0, only_partial=0.0, repeat=0.15, touch=0.3, rglob=0.15):
     """stale: probability that a file still shows an OLDER version (as after a branch switch or a missed update);
     only_partial: probability that a file carries partial patterns only (copyright year, MAJOR.MINOR);
+    rglob: probability that a file in a directory is configured through a recursive glob (top/**/name) together with siblings at other depths;
     touch: probability that two occurrences sharing a line are written without anything between them (end of one = start of the other)"""
     from bumpver import v2version
     lay = Layout()
@@ -90,57 +91,68 @@ def generate(rng, hostile=False, regimes=("lf", "crlf", "cr", "mixed"), max_file
         anchored = [r for r in raws if r.startswith("^")]
         raws = [r for r in raws if not r.startswith("^")] + anchored[:1]
         rng.shuffle(raws)
-        regime = rng.choice(list(regimes))
-        sep = SEPS["crlf" if regime == "mixed" else regime]
-        lines = [[(rng.choice(fill), None)] for _ in range(rng.randrange(1, 8))]
-        for pi, raw in enumerate(raws):
-            for _ in range(rng.choice([1, 1, 2])):
-                text = render_old(lay.vp, raw, file_vinfo)
-                if not text:
-                    continue
-                if raw.startswith("^"):
-                    lines.insert(rng.randrange(len(lines) + 1), [(text, pi)])
-                elif rng.random() < shared and lines:
-                    # share a line with filler / other patterns' occurrences (at most one occurrence per pattern per line, no anchored line)
-                    cand = [ln for ln in lines if all(p != pi for _t, p in ln) and not any(p is not None and raws[p].startswith("^") for _t, p in ln)]
-                    if cand:
-                        ln = rng.choice(cand)
-                        ln.insert(rng.randrange(len(ln) + 1), (text, pi))
+        def build_text(raws=raws, file_vinfo=file_vinfo):
+            regime = rng.choice(list(regimes))
+            sep = SEPS["crlf" if regime == "mixed" else regime]
+            lines = [[(rng.choice(fill), None)] for _ in range(rng.randrange(1, 8))]
+            for pi, raw in enumerate(raws):
+                for _ in range(rng.choice([1, 1, 2])):
+                    text = render_old(lay.vp, raw, file_vinfo)
+                    if not text:
                         continue
-                    lines.insert(rng.randrange(len(lines) + 1), [(text, pi)])
-                else:
-                    lines.insert(rng.randrange(len(lines) + 1), [(rng.choice(["", "  ", "# "]), None), (text, pi), (rng.choice(["", " tail", "; x"]), None)])
-        out_lines = []
-        occ = []
-        for li, ln in enumerate(lines):
-            s = ""
-            for k, (t, p) in enumerate(ln):
-                touching = k > 0 and p is not None and ln[k - 1][1] is not None and rng.random() < touch
-                if k > 0 and s and not s.endswith(" ") and not touching:
-                    s += " "
-                if p is not None:
-                    occ.append((li + 1, len(s), len(s) + len(t), p + 1))
-                s += t
-            out_lines.append(s)
-        text = sep.join(out_lines) + (sep if rng.random() < 0.7 else "")
-        if regime == "mixed" and len(out_lines) > 2:
-            # another line ending inside a filler-only logical line
-            idx = [i for i, ln in enumerate(lines) if all(p is None for _t, p in ln) and out_lines[i]]
-            if idx:
-                i = rng.choice(idx)
-                k = len(out_lines[i]) // 2
-                out_lines[i] = out_lines[i][:k] + rng.choice(["\n", "\r"]) + out_lines[i][k:]
-                text = sep.join(out_lines) + (sep if text.endswith(sep) else "")
-        if hostile and rng.random() < 0.2:
-            text = "﻿" + text
-            occ = [(ln, s + (1 if ln == 1 else 0), e + (1 if ln == 1 else 0), p) for ln, s, e, p in occ]
+                    if raw.startswith("^"):
+                        lines.insert(rng.randrange(len(lines) + 1), [(text, pi)])
+                    elif rng.random() < shared and lines:
+                        # share a line with filler / other patterns' occurrences (at most one occurrence per pattern per line, no anchored line)
+                        cand = [ln for ln in lines if all(p != pi for _t, p in ln) and not any(p is not None and raws[p].startswith("^") for _t, p in ln)]
+                        if cand:
+                            ln = rng.choice(cand)
+                            ln.insert(rng.randrange(len(ln) + 1), (text, pi))
+                            continue
+                        lines.insert(rng.randrange(len(lines) + 1), [(text, pi)])
+                    else:
+                        lines.insert(rng.randrange(len(lines) + 1), [(rng.choice(["", "  ", "# "]), None), (text, pi), (rng.choice(["", " tail", "; x"]), None)])
+            out_lines = []
+            occ = []
+            for li, ln in enumerate(lines):
+                s = ""
+                for k, (t, p) in enumerate(ln):
+                    touching = k > 0 and p is not None and ln[k - 1][1] is not None and rng.random() < touch
+                    if k > 0 and s and not s.endswith(" ") and not touching:
+                        s += " "
+                    if p is not None:
+                        occ.append((li + 1, len(s), len(s) + len(t), p + 1))
+                    s += t
+                out_lines.append(s)
+            text = sep.join(out_lines) + (sep if rng.random() < 0.7 else "")
+            if regime == "mixed" and len(out_lines) > 2:
+                # another line ending inside a filler-only logical line
+                idx = [i for i, ln in enumerate(lines) if all(p is None for _t, p in ln) and out_lines[i]]
+                if idx:
+                    i = rng.choice(idx)
+                    k = len(out_lines[i]) // 2
+                    out_lines[i] = out_lines[i][:k] + rng.choice(["\n", "\r"]) + out_lines[i][k:]
+                    text = sep.join(out_lines) + (sep if text.endswith(sep) else "")
+            if hostile and rng.random() < 0.2:
+                text = "﻿" + text
+                occ = [(ln, s + (1 if ln == 1 else 0), e + (1 if ln == 1 else 0), p) for ln, s, e, p in occ]
+            return text, occ
+        text, occ = build_text()
         lay.files[name] = text
         lay.fpats[name] = list(raws)
         lay.occ[name] = occ
         key = name
-        if rng.random() < glob and "/" in name:
+        if rng.random() < rglob and "/" in name:
+            # a recursive glob that covers this file and files at other depths (same patterns, texts of their own)
+            top, base = name.split("/", 1)[0], os.path.basename(name)
+            key = top + "/**/" + base
+            for sib in (top + "/" + base, top + "/x/y/z/" + base):
+                if sib not in lay.files and sib != name:
+                    lay.files[sib], lay.occ[sib] = build_text()
+                    lay.fpats[sib] = list(raws)
+        elif rng.random() < glob and "/" in name:
             key = os.path.dirname(name) + "/*" + os.path.splitext(name)[1]
-        if len(raws) >= 2 and rng.random() < repeat:
+        if len(raws) >= 2 and rng.random() < repeat and "**" not in key:
             # a repeated entry for the same file under another spelling of its path: the loader accumulates the patterns
             k = rng.randrange(1, len(raws))
             lay.entries.append((key, list(raws[:k])))
